@@ -210,6 +210,14 @@ func genOps(prop string, r *Rng, n int, tier string, emit func(string)) {
 				d = append(d, rb...)
 			}
 			emit("udec " + hx(d))
+			// thousands of header-only frames: work or memory per frame that grows with the rest of the datagram shows
+			for _, f := range [][]byte{{0x80, 192, 0, 0}, {0x80, 203, 0, 0}} {
+				d = nil
+				for j := 0; j < 4000; j++ {
+					d = append(d, f...)
+				}
+				emit("udec " + hx(d))
+			}
 		}
 		// every prefix of one valid frame per kind; (PT,count) rows behind tiny bodies
 		for _, k := range decKinds {
@@ -333,6 +341,11 @@ func genOps(prop string, r *Rng, n int, tier string, emit func(string)) {
 			emit("reenc " + hx(b))
 		}
 		if prop == "C02" {
+			for i := 0; i < 3; i++ { // status count just below 65536 with a final vector chunk running past it
+				t := genTwccWrapValue(r)
+				emit("rt 1 " + packetTokens(t))
+				emit(opWith("rto", t))
+			}
 			for _, k := range bigKinds {
 				// the model's CCFB/XR decoders index lists (quadratic on 100 KiB inputs): thorough tier only
 				slow := k == "CCFB" || k == "XR"
@@ -365,12 +378,35 @@ func genOps(prop string, r *Rng, n int, tier string, emit func(string)) {
 			k := allKinds[r.Intn(len(allKinds))]
 			emit(opWith("encspec", dirtyXRHeaders(r, genValue(r, k, false))))
 		}
+		for i := 0; i < n/40; i++ { // the other exported encoders: MarshalTo into a used buffer, Marshal of a decoded list
+			q := genValue(r, "REMB", false)
+			emit(fmt.Sprintf("rembto %s %d", bodyTokens(q), q.MarshalSize()+r.Pick(0, 0, 4)))
+			emit("relay " + hx(genRelayDatagram(r)))
+		}
 		for _, k := range bigKinds {
 			if thorough || r.Chance(1, 3) {
 				emit(opWith("encspec", genBig(r, k)))
 			}
 		}
 	case "C04":
+		{ // counted strings are not NUL-terminated: a text ending in 0x00 is a value like any other
+			it := func(t rtcp.SDESType, s string) rtcp.SourceDescriptionItem {
+				return rtcp.SourceDescriptionItem{Type: t, Text: s}
+			}
+			for _, v := range []*rtcp.SourceDescription{
+				{Chunks: []rtcp.SourceDescriptionChunk{{Source: 1, Items: []rtcp.SourceDescriptionItem{it(1, "ab\x00"), it(2, "xy")}}}},
+				{Chunks: []rtcp.SourceDescriptionChunk{{Source: 1, Items: []rtcp.SourceDescriptionItem{it(1, "abcde\x00")}}, {Source: 2, Items: []rtcp.SourceDescriptionItem{it(1, "c")}}}},
+				{Chunks: []rtcp.SourceDescriptionChunk{{Source: 1, Items: []rtcp.SourceDescriptionItem{it(1, "\x00"), it(3, "\x00\x00")}}}},
+			} {
+				emit(opWith("rto", v))
+				emit("rt 1 " + packetTokens(v))
+			}
+			emit(opWith("rto", &rtcp.Goodbye{Sources: []uint32{1}, Reason: "bye\x00"}))
+		}
+		for i := 0; i < n/8; i++ { // the type's decoder on the type's own (RFC) encoding of any well-formed value
+			k := allKinds[r.Intn(len(allKinds))]
+			emit(opWith("rto", genValue(r, k, false)))
+		}
 		for i := 0; i < n; i++ {
 			if r.Chance(1, 3) {
 				emit(genDecvOp(r))
@@ -576,6 +612,26 @@ func genOps(prop string, r *Rng, n int, tier string, emit func(string)) {
 			emit("rt 1 " + packetTokens(&rtcp.SenderReport{SSRC: 1, ProfileExtensions: r.Bytes(el)}))
 			emit("rt 1 " + packetTokens(&rtcp.ReceiverReport{SSRC: 1, ProfileExtensions: r.Bytes(el)}))
 		}
+		for _, k := range []string{"SDES", "BYE", "RR", "SR"} { // element counts whose low bits look legal
+			for i := 0; i < 3; i++ {
+				emit("rt 1 " + packetTokens(genCountWrap(r, k)))
+			}
+		}
+		for _, n := range []int{256, 257, 271, 287} {
+			v := &rtcp.SourceDescription{}
+			for i := 0; i < n; i++ {
+				v.Chunks = append(v.Chunks, rtcp.SourceDescriptionChunk{Source: uint32(i)})
+			}
+			emit("rt 1 " + packetTokens(v))
+		}
+		for _, pf := range [][2]int{{192, 0}, {199, 7}, {205, 3}, {206, 9}, {208, 0}, {255, 31}} { // unregistered frame first, in the middle, last
+			raw := hdrBytes(false, pf[1], pf[0], 0)
+			raw = finish(append(raw, r.Bytes(4*r.Intn(3))...))
+			pli := []byte{0x81, 206, 0, 2, 0, 0, 0, 1, 0, 0, 0, 2}
+			emit("udec " + hx(append(append([]byte{}, raw...), pli...)))
+			emit("udec " + hx(append(append(append([]byte{}, pli...), raw...), pli...)))
+			emit("udec " + hx(append(append([]byte{}, pli...), raw...)))
+		}
 		emit("rt 1 " + packetTokens(&rtcp.Goodbye{}))
 		emit("rt 1 " + packetTokens(&rtcp.SourceDescription{}))
 		emit("rt 2 " + packetTokens(&rtcp.Goodbye{}) + " " + packetTokens(&rtcp.SourceDescription{}))
@@ -657,6 +713,17 @@ func genOps(prop string, r *Rng, n int, tier string, emit func(string)) {
 			}
 		}
 	case "C11":
+		{ // a padded APP and an over-long BYE inside a valid compound
+			head := []byte{0x80, 201, 0, 1, 0, 0, 0, 9, 0x81, 202, 0, 3, 0, 0, 0, 9, 1, 2, 'a', 'b', 0, 0, 0, 0}
+			app := []byte{0xa0, 204, 0, 4, 0, 0, 0, 1, 'n', 'a', 'm', 'e', 1, 2, 3, 4, 0, 0, 0, 4}
+			app8 := []byte{0xa0, 204, 0, 5, 0, 0, 0, 1, 'n', 'a', 'm', 'e', 1, 2, 3, 4, 0x80, 203, 0, 0, 0, 0, 0, 8}
+			bye := []byte{0x81, 203, 0, 3, 0, 0, 0, 7, 0, 0, 0, 0, 0, 0, 0, 0}
+			tail := []byte{0x81, 203, 0, 1, 0, 0, 0, 5}
+			for _, m := range [][]byte{app, app8, bye} {
+				emit("cdec " + hx(append(append([]byte{}, head...), m...)))
+				emit("cdec " + hx(append(append(append([]byte{}, head...), m...), tail...)))
+			}
+		}
 		for i := 0; i < n; i++ {
 			ps := genCompoundSeq(r)
 			tk := packetsTokens(ps)
@@ -698,6 +765,18 @@ func genOps(prop string, r *Rng, n int, tier string, emit func(string)) {
 			}
 			if r.Chance(1, 20) {
 				emit(fmt.Sprintf("newcname %d %s", r.Bits(32, 32), hx(r.Bytes(r.Len(6, 0, 255)))))
+			}
+			if r.Chance(1, 25) { // members in encodings the library's own Marshal never produces (padding, other chunkings)
+				d := []byte{0x80, 201, 0, 1, 0, 0, 0, 9, 0x81, 202, 0, 3, 0, 0, 0, 9, 1, 2, 'a', 'b', 0, 0, 0, 0}
+				for k := 1 + r.Intn(3); k > 0; k-- {
+					f := strings.Fields(genVariantOp(r))
+					if len(f) >= 2 && f[1] != "-" {
+						if b, err := hex.DecodeString(f[1]); err == nil && countFrames(b) >= 1 {
+							d = append(d, b...)
+						}
+					}
+				}
+				emit("cdec " + hx(d))
 			}
 			if r.Chance(1, 10) { // a valid compound with a member that cannot be marshalled
 				qs := genCompoundSeq(r)
